@@ -21,6 +21,76 @@ PROBES = {
     '\r': '\r', '\n': '\n', '\t': '\t\x0b\x0c', '#': '#@!_=()/:"%&\'',
 }
 SIGMA = list(PROBES)
+_PREPARED = set()
+
+
+def _class_tests(tree, out):
+    """every character test (literal / class) occurring in a parse tree, as membership predicates"""
+    for op, av in tree:
+        if op == sc.LITERAL:
+            out.append(_matches_factory([(sc.LITERAL, av)]))
+        elif op == sc.NOT_LITERAL:
+            out.append(_matches_factory([(sc.LITERAL, av)]))
+        elif op == sc.IN:
+            out.append(_matches_factory(av))
+        elif op == sc.BRANCH:
+            for alt in av[1]:
+                _class_tests(alt, out)
+        elif op == sc.SUBPATTERN:
+            _class_tests(av[-1], out)
+        elif op in (sc.MAX_REPEAT, sc.MIN_REPEAT):
+            _class_tests(av[2], out)
+        elif op in (sc.ASSERT, sc.ASSERT_NOT):
+            _class_tests(av[1], out)
+
+
+def refine_alphabet(patterns):
+    """split the alphabet classes so that every character test of the given patterns is a union of classes: two characters
+    stay in one class only when no literal or class of any pattern tells them apart (done once, before any automaton is
+    built; class names are the first character of the class)"""
+    tests = []
+    for pat in patterns:
+        try:
+            _class_tests(sp.parse(pat), tests)
+        except Exception:  # noqa  (a pattern that does not compile is reported by the rule that uses it)
+            continue
+    changed = False
+    for name in list(PROBES):
+        groups = {}
+        for ch in PROBES[name]:
+            sig = tuple(t(ch) for t in tests)
+            groups.setdefault(sig, []).append(ch)
+        if len(groups) <= 1:
+            continue
+        changed = True
+        parts = sorted(groups.values(), key=lambda g: (name not in g, g))
+        del PROBES[name]
+        for g in parts:
+            key = name if name in g and name not in PROBES else g[0]
+            PROBES[key] = ''.join(g)
+    if changed:
+        SIGMA[:] = list(PROBES)
+    return changed
+
+
+def prepare(model):
+    """refine the alphabet for every foldable module-level pattern of the package (idempotent per model)"""
+    import ast as _ast
+    if id(model) in _PREPARED:
+        return
+    _PREPARED.add(id(model))
+    pats = []
+    for (mod, name), node in model.consts.items():
+        try:
+            if isinstance(node, _ast.Call) and node.args and getattr(node.func, 'attr', '') == 'compile':
+                pats.append(model.fold(mod, node.args[0]))
+            elif name.startswith('PAT_') or name.endswith('_REGEX') or name.endswith('_PATTERN'):
+                v = model.fold(mod, node)
+                if isinstance(v, str):
+                    pats.append(v)
+        except Exception:  # noqa
+            continue
+    refine_alphabet([p for p in pats if isinstance(p, str)])
 
 
 class NFA(object):
@@ -251,8 +321,8 @@ def matches_empty_without_end(pattern):
 
 
 def show(classes):
-    rep = {'G': 'G', 'T': 'T', 'N': 'N', 'E': 'E', 'A': 'X', '5': '5', '#': '#', '\r': '\\r', '\n': '\\n', '\t': '\\t'}
-    return ''.join(rep.get(c, c) for c in classes)
+    rep = {'A': 'X', 'a': 'x', '\r': '\\r', '\n': '\\n', '\t': '\\t'}
+    return ''.join(rep.get(c, PROBES.get(c, c)[0] if c not in ('\r', '\n', '\t') else c) for c in classes)
 
 
 # ---------------------------------------------------------------- structure: capture groups tiling the match
